@@ -470,10 +470,7 @@ def r10_4(ck):
     ck.floor('R10.4', n, 0, 'registries')
     sw = ck.fn('starts_with', 'core.engine')
     p = A.params_of(sw.node)
-    txt = A.unparse(sw.node)
-    ok = 'len(%s) <= len(%s)' % (p[1], p[0]) in txt or \
-        'len(%s) >= len(%s)' % (p[0], p[1]) in txt
-    ok = ok and 'enumerate(%s)' % p[1] in txt
+    ok = _is_prefix_test(sw.node, p[0], p[1])
     ck.require(ok, 'R10.4', sw, sw.node.name,
                'starts_with(a, sub) tests that sub is a prefix of a',
                'starts_with no longer tests the prefix relation')
@@ -589,6 +586,57 @@ def r10_6(ck):
                'the source key', None)
 
 
+def _is_prefix_test(fnode, a, sub):
+    """Does ``fnode`` compute "sub is a prefix of a"?  Two accepted shapes:
+    a slice comparison  a[:len(sub)] == sub  (possibly through tuple/list),
+    or a length guard len(sub) <= len(a) together with an element-wise
+    equality over enumerate(sub) / zip(a, sub) / range(len(sub))."""
+    def strip(e):
+        while isinstance(e, ast.Call) and A.call_name(e) in (
+                'tuple', 'list') and len(e.args) == 1:
+            e = e.args[0]
+        return e
+    atoms = set()
+    for n in ast.walk(fnode):
+        if isinstance(n, ast.Compare) and len(n.ops) == 1:
+            atoms |= A.cond_atoms(n, True)
+            if isinstance(n.ops[0], ast.Eq):
+                l, r = strip(n.left), strip(n.comparators[0])
+                for x, y in ((l, r), (r, l)):
+                    if A.is_name(y, sub) and A.unparse(x) == \
+                            '%s[:len(%s)]' % (a, sub):
+                        return True
+    guard = ('<=', 'len(%s)' % sub, 'len(%s)' % a) in atoms or \
+        ('<', 'len(%s)' % a, 'len(%s)' % sub) in atoms
+    elem = False
+    for n in ast.walk(fnode):
+        it = tgt = None
+        if isinstance(n, ast.comprehension):
+            it, tgt = n.iter, n.target
+        elif isinstance(n, ast.For):
+            it, tgt = n.iter, n.target
+        if it is None or not isinstance(it, ast.Call):
+            continue
+        nm = A.call_name(it)
+        args = [A.unparse(x) for x in it.args]
+        if nm == 'enumerate' and args == [sub] and isinstance(
+                tgt, ast.Tuple) and len(tgt.elts) == 2:
+            i, el = (A.unparse(x) for x in tgt.elts)
+            want = {('==', *sorted(('%s[%s]' % (a, i), el)))}
+        elif nm == 'zip' and sorted(args) == sorted([a, sub]) and \
+                isinstance(tgt, ast.Tuple) and len(tgt.elts) == 2:
+            want = {('==', *sorted(A.unparse(x) for x in tgt.elts))}
+        elif nm == 'range' and args == ['len(%s)' % sub]:
+            i = A.unparse(tgt)
+            want = {('==', *sorted(('%s[%s]' % (a, i),
+                                    '%s[%s]' % (sub, i))))}
+        else:
+            continue
+        if want & atoms or {('!=',) + w[1:] for w in want} & atoms:
+            elem = True
+    return guard and elem
+
+
 def add_node_summary(ck):
     """From the body of Store.add_node(path, node): (location of the
     returned node relative to self, location of the attached node relative
@@ -598,7 +646,8 @@ def add_node_summary(ck):
     pth, nod = A.params_of(f.node)[1:3]
     ret_loc, attach = None, None
     rets = [r for r in A.walk_no_nested(f.node) if isinstance(r, ast.Return)]
-    if len(rets) != 1 or not isinstance(rets[0].value, ast.Name):
+    if not rets or not all(isinstance(r.value, ast.Name) for r in rets) or \
+            len({r.value.id for r in rets}) != 1:
         return f, None, None
     rv = rets[0].value.id
     for d in local_defs(f.node).get(rv, []):
